@@ -137,7 +137,7 @@ pub fn compare_interp_with_model(case: &ExecCase, m: &ModelRun, quirk: Option<&M
     };
     match (&m.out, &r.outcome) {
         (MOut::Undefined(_), _) | (MOut::StepLimit, _) => Verdict::Discard("model-undefined"),
-        (_, Outcome::Hang { .. }) => Verdict::Inconclusive("interpreter run hit the 20 s watchdog".into()),
+        (_, Outcome::Hang { .. }) => Verdict::Inconclusive("interpreter run hit the 180 s watchdog".into()),
         (_, Outcome::VerifierErr(_)) => Verdict::Discard("not-accepted"),
         (_, Outcome::Panic(msg)) => Verdict::fail(format!("interp:{}", crate::props::panic_signature(msg)), format!("interpreter panicked: {msg}\nmodel: {:?}\n{}", m.out, describe(case))),
         (_, Outcome::Signal { sig, .. }) => Verdict::fail(format!("interp:signal-{sig}"), format!("interpreter died with signal {sig}\nmodel: {:?}\n{}", m.out, describe(case))),
@@ -214,7 +214,7 @@ pub fn compare_compiled_with_interp(case: &ExecCase, m: &ModelRun, interp: &EngR
         Outcome::Hang { phase } => {
             // a compiled program that spins where the interpreter returned is a wrong jump, but a
             // watchdog is not an oracle: report as inconclusive
-            Verdict::Inconclusive(format!("{eng} hit the 20 s watchdog during {phase:?}"))
+            Verdict::Inconclusive(format!("{eng} hit the 180 s watchdog during {phase:?}"))
         }
         other => Verdict::fail(
             format!("{eng}:{}", outcome_sig(other)),
